@@ -18,7 +18,7 @@ EXPLANATION = (
     'when the whole parity class is in use; (d) every request entry point tests the incoming id against the table '
     'before it registers a handler, and the test raises the REJECTED error without touching the table. '
     'Not decided: nothing essential - the clauses hold per operation.')
-EXPLANATION_ADDED = ('(e) a new request is never offered to the stream table before its handle_* method (shared routing rule) and the table is written only after id 0 was refused.')
+EXPLANATION_ADDED = ('(e) a new request is never offered to the stream table before its handle_* method (shared routing rule) and the table is written only after id 0 was refused; (f) the successor of the id cursor visits every id of its parity class: the masked form (cursor + 2) & (2^31-1), or advance-compare-wrap whose largest kept value is the largest id of the class for both parities and whose wrap target is the first id.')
 EXPLANATION = EXPLANATION.replace(' Not decided', ' ' + EXPLANATION_ADDED + ' Not decided', 1) \
     if ' Not decided' in EXPLANATION else EXPLANATION + ' ' + EXPLANATION_ADDED
 ASSUMPTIONS = COMMON_ASSUMPTIONS
@@ -85,6 +85,16 @@ def rule_a(ctx):
                 a = e.data['target'][2]
                 if all(ff.name == '__init__' for ff, _, _ in ctx.repo.attr_assignments(sc, a)):
                     env[a] = e.data['value'].const
+    first_parity_attrs = set()
+    init_f = sc.methods['__init__']
+    for p in ctx.paths(init_f, sc):
+        for e in p.events:
+            if e.kind == 'store' and e.data['target'][0] == 'attr' and e.data['target'][2] != cur:
+                pp = parity(e.data['value'].term, cur, env)
+                if pp is not None and pp[0] == 0 and len(pp[1]) == 1:
+                    a0 = strip_epoch(next(iter(pp[1])))
+                    if a0[0] == 'param' and a0[2] == init_f.params()[1]:
+                        first_parity_attrs.add(e.data['target'][2])
     for f, stmt, value in stores:
         paths = ctx.paths(f, sc)
         ok = True
@@ -123,8 +133,10 @@ def rule_a(ctx):
                             ok, detail = False, 'initial cursor parity is %s + %s, not the parity of the first id' % (
                                 bit, sorted(fmt_term(a) for a in atoms2))
                     else:
+                        # the previous cursor, or an attribute __init__ gave the parity of the first id (the wrap
+                        # target of a compare-and-wrap successor)
                         good = bit == 0 and len(atoms) == 1 and next(iter(atoms))[0] == 'attr' and \
-                            next(iter(atoms))[2] == cur
+                            (next(iter(atoms))[2] == cur or next(iter(atoms))[2] in first_parity_attrs)
                         if not good:
                             ok, detail = False, 'new cursor parity is %s + %s: the parity of the previous id is not ' \
                                                 'preserved' % (bit, sorted(fmt_term(a) for a in atoms))
@@ -263,7 +275,7 @@ def rule_c(ctx):
                         if x[0] == 'op':
                             return find_add(x[2]) or find_add(x[3])
                         return None
-                    step = find_add(t)
+                    step = find_add(t) or step
     if not step:
         raise AnalysisError('C13.c: cannot extract the cursor step')
     paths = ctx.paths(alloc, sc)
@@ -351,6 +363,112 @@ def rule_c(ctx):
     rep.add('C13.c', 'StreamControl.allocate_stream / one attempt per advance', alloc, inc_ok,
             'the attempt counter advances by 1 per cursor advance' if inc_ok else
             'the attempt counter does not advance by exactly 1 per iteration')
+
+
+def rule_f(ctx):
+    """The cursor's successor function walks through every id of its parity class before it repeats: either the
+    masked form (cursor + 2) & (2^k - 1), or advance-compare-wrap, where the largest value that is not wrapped must be
+    the largest id of the class for both parities and the wrap target must be the endpoint's first id.  An off-by-one
+    in the comparison never hands out the top id (allocation then fails with an id free)."""
+    rep = ctx.report
+    sc = ctx.slots.StreamControl
+    cur = ctx.cache.get('id_cursor')
+    mx = ctx.cache.get('id_max')
+    if cur is None or mx is None:
+        raise AnalysisError('C13.f: cursor attribute / maximum id unknown (C13.a did not run)')
+    init = sc.methods['__init__']
+    env = {}
+    first_attrs = set()
+    for p in ctx.paths(init, sc):
+        for e in p.events:
+            if e.kind == 'store' and e.data['target'][0] == 'attr':
+                if e.data['value'].is_const():
+                    env[e.data['target'][2]] = e.data['value'].const
+                t = strip_epoch(e.data['value'].term)
+                if t[0] == 'param' and t[2] == init.params()[1]:
+                    first_attrs.add(e.data['target'][2])
+    for f, stmt, value in ctx.repo.attr_assignments(sc, cur):
+        if f.name == '__init__':
+            continue
+        paths = [p for p in ctx.paths(f, sc) if p.outcome == 'return']
+        stores = []
+        for p in paths:
+            st = [e for e in p.events if e.kind == 'store' and e.data['target'][0] == 'attr' and
+                  e.data['target'][2] == cur]
+            if len(st) != 1:
+                raise AnalysisError('C13.f: %s stores the cursor %d times on a path' % (f.short, len(st)))
+            conds = [e for e in p.events if e.kind == 'cond' and e.seq < st[0].seq and not e.data.get('static')]
+            stores.append((strip_epoch(st[0].data['value'].term), conds))
+        curterm = None
+
+        def is_advance(t):
+            """cursor + 2"""
+            return t[0] == 'op' and t[1] == 'Add' and (
+                (t[2][0] == 'attr' and t[2][2] == cur and t[3] == ('const', 2)) or
+                (t[3][0] == 'attr' and t[3][2] == cur and t[2] == ('const', 2)))
+
+        ok, detail = True, ''
+        if len(stores) == 1 and not stores[0][1]:
+            t = stores[0][0]
+            masked = t[0] == 'op' and t[1] == 'BitAnd' and (is_advance(t[2]) or is_advance(t[3]))
+            mask = None
+            if masked:
+                other = t[3] if is_advance(t[2]) else t[2]
+                mask = _num(other, env)
+            if not masked or mask is None:
+                raise AnalysisError('C13.f: successor %s is neither the masked nor the compare-and-wrap form' %
+                                    fmt_term(t))
+            if (int(mask) + 1) & int(mask) != 0 or int(mask) != mx:
+                ok, detail = False, 'the mask %r is not the all-ones maximum id %r' % (mask, mx)
+            form = '(cursor + 2) & mask'
+        else:
+            adv = [(t, c) for t, c in stores if is_advance(t)]
+            wrap = [(t, c) for t, c in stores if not is_advance(t)]
+            if len(adv) != 1 or len(wrap) != 1 or len(adv[0][1]) != 1:
+                raise AnalysisError('C13.f: successor of %s is neither the masked nor the compare-and-wrap form' %
+                                    f.short)
+            c = adv[0][1][0]
+            k = strip_epoch(c.data['key'])
+            v = c.data['value']
+            if k[0] not in ('lt', 'le') or len(k) != 3:
+                raise AnalysisError('C13.f: wrap test %s is not an ordering comparison' % fmt_term(k))
+            a_is_next, b_is_next = is_advance(k[1]), is_advance(k[2])
+            bound = _num(k[2], env) if a_is_next else (_num(k[1], env) if b_is_next else None)
+            if bound is None or a_is_next == b_is_next:
+                raise AnalysisError('C13.f: wrap test %s does not compare the advanced cursor with a known bound' %
+                                    fmt_term(k))
+            bound = int(bound)
+            # largest advanced value that is kept (not wrapped)
+            if a_is_next and v:           # next < B / next <= B kept
+                largest = bound - 1 if k[0] == 'lt' else bound
+            elif a_is_next and not v:     # not(next < B): kept when next >= B -> unbounded above
+                largest = None
+            elif b_is_next and not v:     # not(B < next) -> next <= B ; not(B <= next) -> next < B
+                largest = bound if k[0] == 'lt' else bound - 1
+            else:
+                largest = None
+            if largest is None:
+                ok, detail = False, 'the advanced cursor is kept when it is beyond the bound: ids above the maximum ' \
+                                    'are handed out'
+            else:
+                for first in (1, 2):
+                    top_kept = largest - ((largest - first) % 2)
+                    top_valid = mx - ((mx - first) % 2)
+                    if top_kept != top_valid:
+                        ok, detail = False, ('with first id %d the largest id handed out is %d, the largest id of that '
+                                             'parity is %d: %s' % (
+                                                 first, top_kept, top_valid,
+                                                 'it is never allocated, and allocation fails while it is free'
+                                                 if top_kept < top_valid else 'ids beyond the maximum are handed out'))
+                        break
+            w = wrap[0][0]
+            if not (w[0] == 'attr' and w[2] in first_attrs):
+                if ok:
+                    ok, detail = False, 'on wrap-around the cursor becomes %s, which is not the first id the ' \
+                                        'endpoint was created with' % fmt_term(w)
+            form = 'advance, compare with %d, wrap to the first id' % bound
+        rep.add('C13.f', '%s / the successor visits every id of the parity class' % f.short, (f.file, stmt.lineno),
+                ok, detail or '%s: every id of either parity up to 2^31-1 is reached before the cursor repeats' % form)
 
 
 ENTRY_POINTS = ('handle_request_response', 'handle_request_stream', 'handle_request_channel',
@@ -455,4 +573,4 @@ def rule_e(ctx):
             why or 'the table is written only after stream_id == 0 was refused (%d paths)' % n)
 
 
-RULES = [('C13.a', rule_a), ('C13.b', rule_b), ('C13.c', rule_c), ('C13.d', rule_d), ('C13.d+C13.e', rule_e)]
+RULES = [('C13.a', rule_a), ('C13.b', rule_b), ('C13.c', rule_c), ('C13.d', rule_d), ('C13.d+C13.e', rule_e), ('C13.f', rule_f)]
